@@ -194,8 +194,23 @@ def run_case(case):
                 opts = gen.random_options(rr, 'whfast')
                 for k_ in ('ri_whfast.safe_mode', 'ri_whfast.keep_unsynchronized'):
                     opts.pop(k_, None)
+                if rr.random() < 0.3:
+                    # the advertised high-order combinations (WHCKL / WHCKM / WHCKC): alternative kernel + high-order corrector, Jacobi coordinates
+                    opts['ri_whfast.kernel'] = rr.choice(['modifiedkick', 'lazy', 'composition'])
+                    opts['ri_whfast.corrector'] = rr.choice([11, 17])
+                    opts['ri_whfast.coordinates'] = 'jacobi'
+                    opts.pop('ri_whfast.corrector2', None)
                 if tp and tp_type == 1 and opts.get('ri_whfast.coordinates') == 'whds':
                     opts['ri_whfast.coordinates'] = 'democraticheliocentric'
+                # Rein, Tamayo & Brown 2019 (documented in integrators.md): with a high-order symplectic corrector the kernels
+                # modifiedkick / lazy / composition leave an error O(eps dt^k + eps^2 dt^4), k >= 7 here: fourth order in dt for
+                # EVERY particle, test particles included (the default kernel leaves eps^2 dt^2)
+                if opts.get('ri_whfast.kernel') in ('modifiedkick', 'lazy', 'composition') and opts.get('ri_whfast.corrector') in (7, 11, 17):
+                    pmin = 4
+                    counters['whfast_fourth_order_configs'] = counters.get('whfast_fourth_order_configs', 0) + 1
+                    if tp and tp_type == 0:
+                        kk = 'whfast_fourth_order_with_type0_testparticles:%s' % opts['ri_whfast.kernel']
+                        counters[kk] = counters.get(kk, 0) + 1
             elif integ == 'saba':
                 ty = rr.choice(gen.SABA_TYPES)
                 opts = {'ri_saba.type': ty}
@@ -262,8 +277,16 @@ def run_case(case):
                     strong = True                                        # and at least one pair sits well above it
             if qs and strong:
                 counters['order_measured'] += 1
+                if integ == 'whfast' and pmin == 4 and tp and tp_type == 0:
+                    counters['order_measured:whfast_fourth_order_with_type0_testparticles'] = counters.get('order_measured:whfast_fourth_order_with_type0_testparticles', 0) + 1
                 key = 'min_order_margin_x100:%s' % integ
                 counters[key] = min(counters.get(key, 10 ** 6), int((max(qs) - pcap) * 100))
+                semi0 = tp and tp_type == 1 and any(q_ > 0 for q_ in m[n_active:]) and (opts.get('ri_whfast.kernel') in ('modifiedkick', 'lazy') or str(opts.get('ri_saba.type', '')).startswith(('cm', 'cl')))
+                qf = None
+                if errs[2] > floor * 30 and errs[1] > errs[2] and not semi0:
+                    qf = math.log(errs[1] / errs[2], 2)
+                    key = 'min_finest_pair_order_margin_x100:%s:p%d' % (integ, pcap)
+                    counters[key] = min(counters.get(key, 10 ** 6), int((qf - pcap) * 100))
                 semi = tp and tp_type == 1 and any(q_ > 0 for q_ in m[n_active:]) and (opts.get('ri_whfast.kernel') in ('modifiedkick', 'lazy') or str(opts.get('ri_saba.type', '')).startswith(('cm', 'cl')))
                 if max(qs) < pcap - (1.0 if pcap <= 4 else 2.0):       # 6th/8th order compositions sit 1-1.7 below their order at these step sizes (measured)
                     add('converge:order-below-advertised:%s%s' % (integ, ':jacobi-gravity-with-massive-semi-active-test-particles' if semi else ''), '%s: observed orders %s, advertised minimum %d' % (desc, ['%.2f' % q for q in qs], pmin))
@@ -304,7 +327,7 @@ def run_case(case):
 def main(tier, seed):
     V = core.Verdict(PROPERTY, tier, seed)
     r = core.rng(PROPERTY, seed)
-    nb = 64 if tier == 'quick' else 1600
+    nb = 128 if tier == 'quick' else 1600
     have512 = 'avx512f' in open('/proc/cpuinfo').read()
     cases = {'rel': [], 'avx512': []}
     for i in range(nb):
@@ -321,7 +344,7 @@ def main(tier, seed):
         for c, rr in zip(cs, res):
             V.absorb(c, rr)
     for k in list(V.counters):
-        if k.startswith('min_order_margin_x100:'):
+        if k.startswith('min_order_margin_x100:') or k.startswith('min_finest_pair_order_margin_x100:'):
             V.counters[k] = min(rr['counters'].get(k, 10 ** 6) for rr in allres if isinstance(rr, dict) and 'counters' in rr)
     inc = []
     for k in ('systems', 'references', 'configs', 'order_measured', 'ode_runs', 'testparticle_configs', 'backward_runs'):
